@@ -29,6 +29,10 @@ def _chain(e: ast.AST, plain: bool = False) -> Optional[Tuple[str, Set[str]]]:
         return _chain(e.left, plain)
     attrs: Set[str] = set()
     n = 0
+    if isinstance(e, ast.Call) and isinstance(e.func, ast.Attribute) and e.func.attr in ("strip", "lstrip", "rstrip", "lower", "upper") and not e.args and not e.keywords:
+        # a side-effect-free text method of a chain / local (`stripped = line.strip()`)
+        inner = _chain(e.func.value, plain=True)
+        return (inner[0], inner[1] | {"()"}) if inner else None
     while True:
         if isinstance(e, ast.Attribute):
             attrs.add(e.attr)
